@@ -448,6 +448,7 @@ def run(rep, ctx):
     rep.rule("R08.4", "parameters are wrapped into [0,1), stored only for tabulated variables, accepted only after full verification; flag reads the same table")
     TO.expr_matrices(rep, T, "R08.1")
     with rep.guard("R08.2"):
+        variables_left_operand(rep, M, "R08.2")
         r08_2(rep, M, T, "R08.2")
     TO.orbit_closure(rep, T, "R08.3")
     with rep.guard("R08.4"):
@@ -509,3 +510,36 @@ META = {
             "validated algebraically from its recognised index pattern, never executed.",
     "technique": "exact table obligations + algebraic validation of a recognised solver statement + def-use rules",
 }
+
+
+# ----------------------------------------------------------------------------- the variable vector multiplies the expression matrices from the left
+def variables_left_operand(rep, M, rid):
+    """_get_wyckoff_sets: positions are x = W . M + C with W the (x, y, z) variable row vector and M[variable][component] (rows = variables): in every
+    product W is the left operand - both in the plausibility test of a candidate and in the batched evaluation over all expressions of the set"""
+    fq = SA + "._get_wyckoff_sets"
+    fn = M.func(fq)
+    wv = {s.targets[0].id for s in ast.walk(fn) if isinstance(s, ast.Assign) and isinstance(s.targets[0], ast.Name) and isinstance(s.value, ast.Call)
+          and (M.ext_name(fq, s.value.func) or "") == "numpy.zeros" and s.value.args and isinstance(s.value.args[0], ast.Constant) and s.value.args[0].value == 3}
+    wv = {w for w in wv if any(isinstance(s, ast.Assign) and isinstance(s.targets[0], ast.Subscript) and norm(s.targets[0].value) == w for s in ast.walk(fn))}
+    if not wv:
+        raise AnalysisError("_get_wyckoff_sets: the vector of the free variables was not recognised")
+    n = 0
+    for c in ast.walk(fn):
+        if isinstance(c, ast.Call) and (M.ext_name(fq, c.func) or "") in ("numpy.dot", "numpy.matmul") and len(c.args) == 2:
+            left, right = c.args
+        elif isinstance(c, ast.BinOp) and isinstance(c.op, ast.MatMult):
+            left, right = c.left, c.right
+        else:
+            continue
+        lw, rw = isinstance(left, ast.Name) and left.id in wv, isinstance(right, ast.Name) and right.id in wv
+        if not (lw or rw):
+            continue
+        n += 1
+        if lw and not rw:
+            rep.ok(rid, f"_get_wyckoff_sets: `{norm(c)[:40]}` - variables (row vector) times expression matrix")
+        else:
+            rep.violation(rid, f"_get_wyckoff_sets: `{norm(c)[:50]}`", "the variable vector is the right operand: M . W contracts the *component* index of the expression "
+                          "matrices with the variables, i.e. evaluates the transposed expressions (x of `(-y, x, z)` ends up in the wrong coordinate); the positions of the "
+                          "set are not regenerated and the parameter search fails with ValueError", M.where(fq, c))
+    if n < 2:
+        raise AnalysisError(f"_get_wyckoff_sets: products with the variable vector found at {n} site(s); plausibility test and batched evaluation expected")
